@@ -599,7 +599,7 @@ func (a *Act) callMods(li *loopInfo, m *modSet, c ssa.CallInstruction, depth int
 
 // contractMods: heaps named by a callee's modifies clauses.
 func (a *Act) contractMods(li *loopInfo, m *modSet, callee *ssa.Function, fc *FuncContract, com *ssa.CallCommon, depth int) {
-	if fc.NoFrame {
+	if fc.NoFrame || fc.ModCallbacks {
 		m.all = true
 		return
 	}
